@@ -32,6 +32,7 @@ struct DomDumpOpts {
     bool ids;          // emit node identity numbers (for domscript)
     bool typeinfo;     // emit schema type info for elements/attrs
     bool lookups;
+    std::vector<xstr> lkPrefixes, lkUris;   // arguments for lookupNamespaceURI / lookupPrefix / isDefaultNamespace
     DomDumpOpts() : ids(false), typeinfo(false), lookups(false) {}
 };
 // Iterative walk of a DOM (sub)tree through public getters only.
